@@ -61,30 +61,19 @@ Definition spec_on (cs : case) : list tok :=
   | CObs c ops => spec_obs c ops (run_print c ops)
   | CLv sc ops => spec_lv sc ops (lv_run sc ops)
   end.
-(* the excluded region is exactly the open finding F27 (an attribute set of a sum instrument reported twice in one collection) *)
+(* what the case parser guarantees (parse_case_ok); nothing is excluded *)
 Definition case_good (cs : case) : Prop :=
   match cs with
-  | CObs c ops => Forall (op_ok c) ops /\ no_f27 c (final_sstate c ops)
+  | CObs c ops => Forall (op_ok c) ops
   | CLv _ _ => True
   end.
 
 Lemma model_meets_spec_lemma : forall cs, case_good cs -> spec_on cs = [].
 Proof.
   intros [c ops|sc ops] H; cbn [spec_on case_good] in *.
-  - destruct H as [H1 H2]. now apply model_meets_spec_obs.
+  - now apply model_meets_spec_obs.
   - apply model_meets_spec_lv.
 Qed.
 
-Lemma model_meets_spec_parsed_lemma : forall l c ops,
-  parse_case l = Some (CObs c ops) -> no_f27 c (final_sstate c ops) -> spec_obs c ops (run_print c ops) = [].
-Proof. intros l c ops H Hno. apply model_meets_spec_obs; [now apply (parse_case_ok l)|exact Hno]. Qed.
-
-(* what no_f27 means over the history *)
-Lemma no_f27_iff : forall c ops,
-  no_f27 c (final_sstate c ops) <->
-  forall i, is_last (kind_of c i) = false -> forall g, In g (groups c ops i) -> has_dup (map fst g) = false.
-Proof.
-  intros c ops. unfold no_f27. split; intros H i Hk.
-  - apply no_repeated_report_iff. now apply H.
-  - apply (proj2 (no_repeated_report_iff c ops i)). now apply H.
-Qed.
+Lemma parsed_case_good : forall l cs, parse_case l = Some cs -> case_good cs.
+Proof. intros l [c ops|sc ops] H; cbn [case_good]; [now apply (parse_case_ok l)|exact I]. Qed.
